@@ -52,26 +52,27 @@ type PathSample struct {
 }
 
 type Result struct {
-	Entry        string
-	Paths        int
-	Ends         map[string]int
-	Decisions    int // solver-decided branch outcomes (feasible sides explored)
-	Reached      map[string]int
-	Violations   []Violation
-	Samples      []PathSample
-	Unsupported  []string
-	Incomplete   string // non-empty: exploration cut short (budget / deadline)
-	Steps        int64
-	Queries      QueryStats
-	Asserts      int // assertion obligations discharged (unsat or concretely true)
-	AssertIDs    map[string]int
-	AssumePruned int
-	Stubs        map[string]int
-	Funcs        map[string]int // function -> instruction count (encoded functions)
-	Wall         time.Duration
-	SolverTime   time.Duration
-	MaxPathSteps int
-	Nontrivial   int // paths with >=1 solver-decided branch that reached an assertion
+	Entry          string
+	Paths          int
+	Ends           map[string]int
+	Decisions      int // solver-decided branch outcomes (feasible sides explored)
+	Reached        map[string]int
+	Violations     []Violation
+	ViolationCount int
+	Samples        []PathSample
+	Unsupported    []string
+	Incomplete     string // non-empty: exploration cut short (budget / deadline)
+	Steps          int64
+	Queries        QueryStats
+	Asserts        int // assertion obligations discharged (unsat or concretely true)
+	AssertIDs      map[string]int
+	AssumePruned   int
+	Stubs          map[string]int
+	Funcs          map[string]int // function -> instruction count (encoded functions)
+	Wall           time.Duration
+	SolverTime     time.Duration
+	MaxPathSteps   int
+	Nontrivial     int // paths with >=1 solver-decided branch that reached an assertion
 }
 
 type QueryStats struct {
@@ -103,6 +104,7 @@ type Engine struct {
 	pc             []*Term
 	solverPC       []*Term // what is on the solver stack (for determinism check)
 	decided        map[*Term]bool
+	fixed          map[*Term]uint64 // terms pinned to a constant by the path condition
 	globals        map[*ssa.Global]*Cell
 	inited         map[*ssa.Package]bool
 	cellSeq        int
@@ -122,6 +124,8 @@ type Engine struct {
 	natives        map[string]Value
 
 	noSamples                 bool
+	mapRanges                 int
+	permSeq                   int
 	noIntercept               *ssa.Function
 	partial                   string            // non-empty: this path under-approximates (see ropeSlice)
 	bound                     map[string]uint64 // variables fixed by a representative assignment (ropeSlice)
@@ -193,6 +197,9 @@ func (e *Engine) noteDecided(t *Term, val bool) {
 		return
 	}
 	e.decided[t] = val
+	if val && t.Op == OpEq && t.A[1].Op == OpConst {
+		e.fixed[t.A[0]] = t.A[1].K // the path condition pins this term to a constant
+	}
 	if val && t.Op == OpAnd {
 		e.noteDecided(t.A[0], true)
 		e.noteDecided(t.A[1], true)
@@ -256,6 +263,11 @@ func (e *Engine) decide(cond *Term, tag string) bool {
 	if b, ok := e.lookupDecided(cond); ok {
 		return b
 	}
+	if len(e.fixed) > 0 {
+		if v, ok := e.evalFixed(cond); ok {
+			return v != 0
+		}
+	}
 	d := len(e.taken)
 	var dec decision
 	if d < len(e.prefix) {
@@ -295,6 +307,11 @@ func (e *Engine) decide(cond *Term, tag string) bool {
 func (e *Engine) concretize(t *Term) int64 {
 	if t.IsConst() {
 		return signExt(t.K, t.W)
+	}
+	if len(e.fixed) > 0 {
+		if v, ok := e.evalFixed(t); ok {
+			return signExt(v, t.W)
+		}
 	}
 	for n := 0; ; n++ {
 		if n > e.cfg.MaxConcrete {
@@ -375,6 +392,7 @@ func (e *Engine) resetPath() {
 	e.taken = e.taken[:0]
 	e.decPC = e.decPC[:0]
 	e.decided = map[*Term]bool{}
+	e.fixed = map[*Term]uint64{}
 	e.globals = map[*ssa.Global]*Cell{}
 	e.inited = map[*ssa.Package]bool{}
 	e.cellSeq = 0
@@ -394,6 +412,7 @@ func (e *Engine) resetPath() {
 	e.natives = map[string]Value{}
 	e.env = map[string]Value{}
 	e.partial = ""
+	e.permSeq = 0
 	e.bound = map[string]uint64{}
 	e.faultSeq = map[string]int{}
 	e.wgDefer, e.wgSwap, e.wgActors, e.wgTasks = false, false, false, nil
@@ -534,13 +553,13 @@ func (e *Engine) Explore(fn *ssa.Function, args []Value) *Result {
 		case "panic":
 			m, ok := e.fullModel()
 			if ok {
-				res.Violations = append(res.Violations, Violation{Kind: "panic", ID: "no-panic", Msg: end.msg, Model: m,
+				e.addViolation(Violation{Kind: "panic", ID: "no-panic", Msg: end.msg, Model: m,
 					Strs: e.modelStrs(m), Obs: e.evalObs(m), Path: res.Paths})
 			}
 		case "budget":
 			m, ok := e.fullModel()
 			if ok {
-				res.Violations = append(res.Violations, Violation{Kind: "budget", ID: "termination", Msg: end.msg, Model: m,
+				e.addViolation(Violation{Kind: "budget", ID: "termination", Msg: end.msg, Model: m,
 					Strs: e.modelStrs(m), Path: res.Paths})
 			}
 		case "unsupported":
@@ -618,3 +637,46 @@ func (e *Engine) SetValidate(on bool) { e.noSamples = !on }
 
 // SolverDead reports whether the engine's solver process has died (the engine must be replaced).
 func (e *Engine) SolverDead() bool { return e.sol.Dead }
+
+// evalFixed evaluates t using only constants and terms the path condition pins to a constant.
+func (e *Engine) evalFixed(t *Term) (uint64, bool) {
+	if t.Op == OpConst {
+		return t.K, true
+	}
+	if v, ok := e.fixed[t]; ok {
+		return v, true
+	}
+	if t.Op == OpVar || t.N == 0 {
+		return 0, false
+	}
+	var a [3]uint64
+	for i := 0; i < int(t.N); i++ {
+		v, ok := e.evalFixed(t.A[i])
+		if !ok {
+			return 0, false
+		}
+		a[i] = v
+	}
+	// rebuild a constant instance of the node and evaluate it
+	c := *t
+	for i := 0; i < int(t.N); i++ {
+		c.A[i] = &Term{Op: OpConst, W: t.A[i].W, K: a[i]}
+	}
+	c.id = 0
+	return Eval(&c, nil, map[uint32]uint64{}), true
+}
+
+// addViolation records a violation, keeping at most a few per assertion id and run (the rest
+// are only counted): every recorded one is replayed natively.
+func (e *Engine) addViolation(v Violation) {
+	e.res.ViolationCount++
+	n := 0
+	for _, x := range e.res.Violations {
+		if x.ID == v.ID && x.Kind == v.Kind {
+			n++
+		}
+	}
+	if n < 3 {
+		e.res.Violations = append(e.res.Violations, v)
+	}
+}
